@@ -273,7 +273,9 @@ func (n *Node) persistedState() string {
 		}
 	}
 	it.Close()
-	sort.Slice(wins, func(i, j int) bool { return len(wins[i]) < len(wins[j]) || (len(wins[i]) == len(wins[j]) && wins[i] < wins[j]) })
+	sort.Slice(wins, func(i, j int) bool {
+		return len(wins[i]) < len(wins[j]) || (len(wins[i]) == len(wins[j]) && wins[i] < wins[j])
+	})
 	snap := "none"
 	if rf, err := core.GetRunningEventFilter(n.DB); err == nil {
 		nx, _ := rf.NextBlock()
